@@ -214,6 +214,65 @@ func hasKindClause(c *EvalCase) bool {
 	return false
 }
 
+// ctxIndividuals: the individual contexts of a (valid) context, addressable for modification.
+func ctxIndividuals(x *WCtx) []*WSCtx {
+	switch x.T {
+	case "single":
+		return []*WSCtx{x.C}
+	case "multi":
+		out := []*WSCtx{}
+		for i := range x.Cs {
+			out = append(out, &x.Cs[i])
+		}
+		return out
+	}
+	return nil
+}
+
+// mentionsAttr: whether any clause or bucket-by of the evaluated flag, of a stored flag or of a
+// stored segment could read the top-level attribute `name` (deliberately generous: any spelling
+// of the reference that contains the name counts, so the relation is only evaluated where the
+// attribute is certainly unreferenced).
+func mentionsAttr(c *EvalCase, name string) bool {
+	ref := func(w WRef) bool {
+		if strings.Contains(w.R, name) || strings.Contains(w.S, name) || strings.Contains(w.Arg, name) {
+			return true
+		}
+		for _, x := range w.C {
+			if x == name {
+				return true
+			}
+		}
+		return false
+	}
+	cls := func(cs []WClause) bool {
+		for _, cl := range cs {
+			if ref(cl.Attr) {
+				return true
+			}
+		}
+		return false
+	}
+	for _, f := range allFlags(c) {
+		for _, r := range f.Rules {
+			if cls(r.Clauses) || ref(r.VR.RO.By) {
+				return true
+			}
+		}
+		if ref(f.FT.RO.By) {
+			return true
+		}
+	}
+	for _, s := range c.Store.Segments {
+		for _, r := range s.Rules {
+			if cls(r.Clauses) || ref(r.By) {
+				return true
+			}
+		}
+	}
+	return false
+}
+
 func neverMatchRule() WFlagRule {
 	return WFlagRule{ID: "dead-rule", VR: WVR{V: ip(0), RO: WRollout{Vars: []WWV{}, By: mkRef("", "")}},
 		Clauses: []WClause{{Attr: mkRef("lit", "key"), Op: "in", Vals: []JV{}}}}
@@ -270,6 +329,61 @@ var perturbations = []perturbation{
 			return nil, false
 		}
 		return n, true
+	}, sameFull},
+	{"remove-unreferenced-attribute", func(r *rng, c *EvalCase) (*EvalCase, bool) {
+		// the converse of the addition: drop a custom attribute that nothing in scope names
+		// (all entries of that name, so that no shadowed value becomes visible)
+		n := cloneCase(c)
+		scs := ctxIndividuals(&n.Ctx)
+		if len(scs) == 0 {
+			return nil, false
+		}
+		s := scs[r.intn(len(scs))]
+		var cands []string
+		for _, a := range s.Attrs {
+			if !mentionsAttr(c, a.K) {
+				cands = append(cands, a.K)
+			}
+		}
+		if len(cands) == 0 {
+			return nil, false
+		}
+		name := cands[r.intn(len(cands))]
+		kept := []WAttr{}
+		for _, a := range s.Attrs {
+			if a.K != name {
+				kept = append(kept, a)
+			}
+		}
+		s.Attrs = kept
+		return n, true
+	}, sameFull},
+	{"unreferenced-builtin", func(r *rng, c *EvalCase) (*EvalCase, bool) {
+		// the built-in attributes `name` and `anonymous` are ordinary addressable attributes: when
+		// nothing in scope names them, setting, changing or clearing them changes nothing
+		n := cloneCase(c)
+		scs := ctxIndividuals(&n.Ctx)
+		if len(scs) == 0 {
+			return nil, false
+		}
+		s := scs[r.intn(len(scs))]
+		did := false
+		if !mentionsAttr(c, "name") {
+			switch {
+			case s.Name == nil:
+				s.Name = sp(pick(r, []string{"", "zz name", "key", "\u00e9"}))
+			case r.intn(2) == 0:
+				s.Name = nil
+			default:
+				s.Name = sp(*s.Name + "x")
+			}
+			did = true
+		}
+		if !mentionsAttr(c, "anonymous") && (!did || r.bool()) {
+			s.Anon = !s.Anon
+			did = true
+		}
+		return n, did
 	}, sameFull},
 	{"unreferenced-kind", func(r *rng, c *EvalCase) (*EvalCase, bool) {
 		if hasKindClause(c) || c.Ctx.T == "invalid" {
@@ -572,7 +686,7 @@ func checkC20(seed uint64, replayDir, corpusDir string) (map[string]any, int) {
 		}
 	}
 	nv := reportUnitDisagreements("C20", t.dis, replayDir)
-	return t.frag("(configuration, context) pairs x ten perturbation families (unreferenced attribute, unreferenced kind, metadata of the evaluated flag, metadata of stored flags and segments, reported metadata of stored flags modulo the event fields that carry it, value/key order in the evaluated flag and in stored flags and segments, clause order, appended rule, inserted never-matching rule): relation evaluated on the real code's full observable behaviour (oracle-free), model agreement on both sides; non-trivial = distinct perturbed cases on which the relation was evaluated", nil), nv
+	return t.frag("(configuration, context) pairs x twelve perturbation families (unreferenced attribute added, unreferenced attribute removed, unreferenced built-in name / anonymous changed, unreferenced kind, metadata of the evaluated flag, metadata of stored flags and segments, reported metadata of stored flags modulo the event fields that carry it, value/key order in the evaluated flag and in stored flags and segments, clause order, appended rule, inserted never-matching rule): relation evaluated on the real code's full observable behaviour (oracle-free), model agreement on both sides; non-trivial = distinct perturbed cases on which the relation was evaluated", nil), nv
 }
 
 func onlyBSSDiffers(a, b *WObs) bool {
